@@ -16,6 +16,7 @@
 //! and gates new readers - the writer stays linked (keeping the gate up)
 //! until it wins, which is what prevents reader streams from starving
 //! writers. Pure-read workloads never set it and never touch the queue.
+#![allow(unexpected_cfgs)] // `excsn_fibre_verif` gates the verification seam (verif_hook.rs)
 
 use super::wait_queue::{WaitList, Waiter, WaiterNode, WAITING, WOKEN};
 
@@ -90,6 +91,8 @@ impl<T> HybridRwLock<T> {
 
   #[inline]
   pub fn read(&self) -> ReadGuard<'_, T> {
+    #[cfg(all(excsn_fibre_verif, not(loom)))]
+    super::verif_hook::emit(0, self as *const Self as *const () as usize, 1);
     if self.try_acquire_read() {
       return ReadGuard { lock: self };
     }
@@ -166,6 +169,8 @@ impl<T> HybridRwLock<T> {
 
   #[inline]
   pub fn write(&self) -> WriteGuard<'_, T> {
+    #[cfg(all(excsn_fibre_verif, not(loom)))]
+    super::verif_hook::emit(0, self as *const Self as *const () as usize, 0);
     if self.try_acquire_write() {
       return WriteGuard { lock: self };
     }
@@ -247,6 +252,8 @@ impl<T> HybridRwLock<T> {
   // --- Try variants ---
 
   pub fn try_read(&self) -> Option<ReadGuard<'_, T>> {
+    #[cfg(all(excsn_fibre_verif, not(loom)))]
+    super::verif_hook::emit(1, self as *const Self as *const () as usize, 1);
     let s = self.state.load(Ordering::Relaxed);
     if s & (WRITE_LOCKED | WRITER_PENDING) != 0 {
       return None;
@@ -255,13 +262,23 @@ impl<T> HybridRwLock<T> {
       .state
       .compare_exchange(s, s + READER_UNIT, Ordering::Acquire, Ordering::Relaxed)
     {
+      #[cfg(not(all(excsn_fibre_verif, not(loom))))]
       Ok(_) => Some(ReadGuard { lock: self }),
+      #[cfg(all(excsn_fibre_verif, not(loom)))]
+      Ok(_) => {
+        super::verif_hook::emit(2, self as *const Self as *const () as usize, 1);
+        Some(ReadGuard { lock: self })
+      }
       Err(_) => None,
     }
   }
 
   pub fn try_write(&self) -> Option<WriteGuard<'_, T>> {
+    #[cfg(all(excsn_fibre_verif, not(loom)))]
+    super::verif_hook::emit(1, self as *const Self as *const () as usize, 0);
     if self.try_acquire_write() {
+      #[cfg(all(excsn_fibre_verif, not(loom)))]
+      super::verif_hook::emit(2, self as *const Self as *const () as usize, 0);
       Some(WriteGuard { lock: self })
     } else {
       None
@@ -350,6 +367,8 @@ pub struct ReadGuard<'a, T> {
 impl<T> Drop for ReadGuard<'_, T> {
   fn drop(&mut self) {
     self.lock.unlock_read();
+    #[cfg(all(excsn_fibre_verif, not(loom)))]
+    super::verif_hook::emit(3, self.lock as *const HybridRwLock<T> as *const () as usize, 1);
   }
 }
 
@@ -367,6 +386,8 @@ pub struct WriteGuard<'a, T> {
 impl<T> Drop for WriteGuard<'_, T> {
   fn drop(&mut self) {
     self.lock.unlock_write();
+    #[cfg(all(excsn_fibre_verif, not(loom)))]
+    super::verif_hook::emit(3, self.lock as *const HybridRwLock<T> as *const () as usize, 0);
   }
 }
 
